@@ -74,7 +74,7 @@ thread_local! {
     static MAXREQ: Cell<usize> = const { Cell::new(0) };
 }
 /// Requests above this size are refused (null), after naming the current case.
-pub const ALLOC_HARD_CAP: usize = 8 << 30;
+pub const ALLOC_HARD_CAP: usize = 1 << 30;
 
 #[inline]
 fn on() -> bool {
